@@ -3,6 +3,10 @@
  *    <status> <hex bytes> n=<count> off=<offset after the op>[ z=1][ moved=1][ stale=1]
  * moved=1 : bf->mem changed while a stable anchor is in force (pointers handed out are dangling)
  * stale=1 : bytes behind a pointer handed out under the stable anchor changed (window was shifted)
+ * `open … retire=1` (sent by the plug-in when the working tree has fix C05-stable-anchor-keep-oldmem: buffer_refill() keeps the old
+ * block on bf->retired instead of realloc()ing it): bf->mem may change under a stable anchor, so moved= is never reported; instead
+ * EVERY pointer handed out since the anchor was set is read again after EVERY operation (ASan: use-after-free if a block was
+ * freed; stale=1 if its bytes changed) — "all pointers returned by _Get*() remain valid at least until the anchor is raised".
  */
 #include "hcommon.h"
 #include <unistd.h>
@@ -20,7 +24,7 @@ static char *lastp; static int lastp_ok;
 /* stable-anchor pointer monitor */
 #define NSAVE 64
 #define SAVELEN 48
-static char *stable_mem; static int stable_on;
+static char *stable_mem; static int stable_on; static int g_retire;
 static struct { char *p; int len; char copy[SAVELEN]; } saved[NSAVE]; static int nsaved;
 
 static void open_cleanup(void);   /* round4-open */
@@ -87,7 +91,7 @@ static void answer(int status, const char *p, esl_pos_t n, int z)
   if (p == h_poison) { h_out("%s UNTOUCHED-OUT-PARAM n=%" PRId64, h_status(status), (int64_t) n); return; }
   if (bf && stable_on) {
     if (bf->anchor == -1) { stable_on = 0; nsaved = 0; }
-    else if (bf->mem != stable_mem) { moved = 1; }   /* the saved pointers are kept: `checkstable` reads through them */
+    else if (!g_retire && bf->mem != stable_mem) { moved = 1; }   /* the saved pointers are kept: `checkstable` reads through them */
     else for (i = 0; i < nsaved; i++) if (memcmp(saved[i].p, saved[i].copy, saved[i].len) != 0) stale = 1;
   }
   { char abuf[64] = "a=-";   /* the anchor in input coordinates and its count: anchors must be released, or a stream is kept in memory for ever */
@@ -338,6 +342,7 @@ static void h_op(void)
 
   if (g_skip) { h_out("skipped"); return; }
   if (mem_op()) return;   /* round4-mem */
+  if (!strcmp(op, "open") || !strcmp(op, "fsopen")) g_retire = (int) h_argi("retire", 0);
   if (open_op()) return;   /* round4-open */
   if (!strcmp(op, "open")) {
     const char *mode = h_arg("mode"); unsigned char *tmp; int64_t len;
